@@ -14,6 +14,7 @@ from .core.align import _check_stack_args, _get_axes, stack, concatenate, _check
 from .core.transform import interp_like, _interp_internal_from_weight, _interp_internal_get_weights, _interp_internal_maybe_sort
 from .core import pandas_obj
 from .core.bases import AbstractDataset, GetSetDelAttrMixin, OpMixin
+from .core.indexing import locate_many
 from .prettyprinting import repr_dataset
 
 class DatasetAxes(Axes):
@@ -683,9 +684,9 @@ class Dataset(AbstractDataset, dict, OpMixin, GetSetDelAttrMixin):
         else:
             values = np.asarray(values)
 
-        # take axis, do not raise error
-        dataset = self.take_axis(values, axis=axis, indexing='label', 
-                                 mode='raise' if raise_error else 'clip')
+        # same lookup as DimArray.reindex_axis (method='right' searches on the right side)
+        indices = locate_many(self.axes[axis].values, values, side=method or 'left')
+        dataset = self.take_axis(indices, axis=axis, indexing='position')
 
         # Replace mismatch with missing values?
         newax = dataset.axes[axis]
@@ -693,6 +694,8 @@ class Dataset(AbstractDataset, dict, OpMixin, GetSetDelAttrMixin):
         any_nan = np.any(mask)
 
         if any_nan:
+            if raise_error:
+                raise IndexError("Some values where not found in the axis: {}".format(values[mask]))
             # Make sure the axis values match the requested new axis
             dataset.axes[axis][mask] = values[mask]
 
